@@ -352,45 +352,51 @@ func (i *interpreter) concretize(t *sym.Term, signed bool, what string) int64 {
 	}
 	w := int(t.Sort.W)
 	mkc := func(v int64) *sym.Term { return i.ctx.BVC(w, uint64(v)) }
-	var excl []int64
 	if i.dpos < len(i.prefix) {
 		d := i.prefix[i.dpos]
 		if d.Kind != "conc" {
 			panic(fmt.Sprintf("decision replay mismatch at %d: have %s want conc%s", i.dpos, d.Kind, i.where()))
 		}
-		if !d.Pend {
-			i.dpos++
-			i.decs = append(i.decs, d)
-			i.addPC(i.ctx.Eq(t, mkc(d.Choice)))
-			return d.Choice
+		i.dpos++
+		i.decs = append(i.decs, d)
+		i.addPC(i.ctx.Eq(t, mkc(d.Choice)))
+		return d.Choice
+	}
+	// enumerate all feasible values now (model, block, repeat)
+	rel := i.slicePC(t)
+	as := append([]*sym.Term{}, rel...)
+	var vals []int64
+	for {
+		if len(vals) > i.concCap {
+			panic(pathAbort{kind: abBudget, msg: fmt.Sprintf("concretisation of %s exceeded %d values%s", what, i.concCap, i.where())})
 		}
-		excl = d.Excl
+		r, mv := i.solver.Check(as, i.cfg.QueryTimeout, []*sym.Term{t})
+		i.Stats.FeasQueries++
+		if r == sym.Unsat {
+			break
+		}
+		if r == sym.Unknown {
+			panic(pathAbort{kind: abUnknown, msg: "solver unknown while concretising " + what + i.where()})
+		}
+		var v int64
+		if signed {
+			v = i.ctx.BVC(w, mv[0].U).SignedVal()
+		} else {
+			v = int64(mv[0].U)
+		}
+		vals = append(vals, v)
+		as = append(as, i.ctx.Not(i.ctx.Eq(t, mkc(v))))
 	}
-	// resolve: find a value not in excl
-	as := append([]*sym.Term{}, i.pc...)
-	for _, e := range excl {
-		as = append(as, i.ctx.Not(i.ctx.Eq(t, mkc(e))))
+	if len(vals) == 0 {
+		panic(pathAbort{kind: abAssume, msg: "no feasible value"})
 	}
-	if len(excl) > i.concCap {
-		panic(pathAbort{kind: abBudget, msg: fmt.Sprintf("concretisation of %s exceeded %d values%s", what, i.concCap, i.where())})
-	}
-	r, vals := i.solver.Check(as, i.cfg.QueryTimeout, []*sym.Term{t})
-	i.Stats.FeasQueries++
-	if r == sym.Unsat {
-		panic(pathAbort{kind: abAssume, msg: "no further value"})
-	}
-	if r == sym.Unknown {
-		panic(pathAbort{kind: abUnknown, msg: "solver unknown while concretising " + what + i.where()})
-	}
-	var v int64
-	if signed {
-		v = i.ctx.BVC(w, vals[0].U).SignedVal()
-	} else {
-		v = int64(vals[0].U)
-	}
+	sort.Slice(vals, func(a, b int) bool { return vals[a] < vals[b] })
 	base := append([]Decision{}, i.decs...)
-	alt := append(append([]Decision{}, base...), Decision{Kind: "conc", Pend: true, Excl: append(append([]int64{}, excl...), v)})
-	i.push(alt)
+	for k := len(vals) - 1; k >= 1; k-- {
+		alt := append(append([]Decision{}, base...), Decision{Kind: "conc", Choice: vals[k]})
+		i.push(alt)
+	}
+	v := vals[0]
 	i.decs = append(i.decs, Decision{Kind: "conc", Choice: v})
 	i.dpos = len(i.decs)
 	i.prefix = i.decs
